@@ -340,10 +340,17 @@ class Module(object):
 class Program(object):
     """All non-test modules of the package under a repository root."""
 
-    def __init__(self, root='/repo', package=PACKAGE, exclude=('tests',)):
+    def __init__(self, root='/repo', package=PACKAGE, exclude=('tests',),
+                 reference='default'):
         self.root = os.path.abspath(root)
         self.package = package
         self.modules: Dict[str, Module] = {}
+        self.alpha_renamed: List[Tuple[str, str, Dict[str, str]]] = []
+        if reference == 'default':
+            reference = os.path.join(os.path.dirname(os.path.dirname(
+                os.path.abspath(__file__))), 'selftest', 'pristine')
+        self.reference = reference if reference and os.path.isdir(
+            os.path.join(reference, package)) else None
         pkg_dir = os.path.join(self.root, package)
         if not os.path.isdir(pkg_dir):
             raise AnchorMissing('package directory %s not found' % pkg_dir)
@@ -367,12 +374,36 @@ class Program(object):
                         name, path, os.path.relpath(path, self.root), src)
                 except SyntaxError as e:
                     raise AnalysisError('cannot parse %s: %s' % (path, e))
+        self._alpha_normalise()
         self._link_classes()
         self._methods_by_name: Dict[str, List[Func]] = {}
         for m in self.modules.values():
             for f in m.all_funcs():
                 if f.cls is not None:
                     self._methods_by_name.setdefault(f.name, []).append(f)
+
+    def _alpha_normalise(self):
+        """Rename locals to the names used in the reference snapshot where a
+        function is alpha-equivalent to it (see sa/alpha.py)."""
+        if not self.reference or os.environ.get('SA_NO_ALPHA'):
+            return
+        if os.path.realpath(self.reference) == os.path.realpath(self.root):
+            return
+        from . import alpha
+        for m in self.modules.values():
+            rp = os.path.join(self.reference, m.relpath)
+            if not os.path.exists(rp):
+                continue
+            try:
+                with open(rp, 'r', encoding='utf-8') as fp:
+                    rsrc = fp.read()
+                if rsrc == m.source:
+                    continue
+                rtree = ast.parse(rsrc)
+            except (OSError, SyntaxError):
+                continue
+            for q, ren in alpha.normalise_module(m.tree, rtree):
+                self.alpha_renamed.append((m.name, q, ren))
 
     # -- lookups -----------------------------------------------------------
 
